@@ -42,6 +42,14 @@ func (b *Broker) send(c *Conn, p *codec.Packet) {
 	c.Inject(raw)
 }
 
+// Awaiting makes the broker remember an exactly-once publication of an earlier incarnation whose PUBREL is due.
+func (b *Broker) Awaiting(id int) {
+	b.mu.Lock()
+	b.session = true
+	b.awaitingRel[id] = true
+	b.mu.Unlock()
+}
+
 // SendRaw queues arbitrary bytes (hostile broker).
 func (b *Broker) SendRaw(c *Conn, raw []byte, note string) {
 	b.w.Rec.Emit(Ev{"e": "bsraw", "c": c.id, "n": len(raw), "note": note, "violation": false})
